@@ -1,7 +1,48 @@
 """Concrete replay for C13 (Python scheduler)."""
 
 
+def replay_rust(rec):
+    from engines.rsym import build
+
+    s = rec["state"]
+    ins = {50: rec["enabled"], 51: 1 if rec["preserve"] else 0, 62: rec["isr"]}
+    ins64 = {i: s[n] for n, i in {"mti_period": 52, "sti_period": 54, "next_mti": 56, "next_sti": 58, "cycle": 60}.items()}
+    case = rec["case"]
+    r = build.run_replay("harness_timer_reset" if case == "reset" else "harness_timer", ins, {}, inputs64=ins64)
+    o = r["out"]
+    j = lambda i: r["out64"][i]  # noqa: E731
+    bad = []
+    if case == "reset":
+        if (s["mti_period"] > 0 and j(2) != s["cycle"] + s["mti_period"]) or (s["sti_period"] > 0 and j(4) != s["cycle"] + s["sti_period"]):
+            bad.append("reset targets")
+    else:
+        isr = rec["isr"]
+        for tag, fi, ni, bit in (("mti", 0, 2, 1), ("sti", 1, 4, 2)):
+            per, nxt, cyc = s[tag + "_period"], s["next_" + tag], s["cycle"]
+            should = bool(rec["enabled"]) and per > 0 and cyc >= nxt
+            fired = bool(o[fi])
+            n2 = j(ni)
+            if fired != should:
+                bad.append(f"{tag} fired={fired} should={should}")
+            if fired and not n2 > cyc:
+                bad.append(f"{tag} next {n2} not in the future of {cyc}")
+            if fired and rec["preserve"] and (n2 - per > cyc or (n2 - nxt) % per != 0):
+                bad.append(f"{tag} phase/period next={n2}")
+            if fired and not rec["preserve"] and n2 != cyc + per:
+                bad.append(f"{tag} rearm {n2}")
+            if not fired and n2 != nxt:
+                bad.append(f"{tag} target moved without firing")
+            if should:
+                isr |= bit
+        if o[6] != isr:
+            bad.append(f"ISR {o[6]:#x} want {isr:#x}")
+    print("native rust timer:", rec["state"], "->", o, bad)
+    return bool(bad)
+
+
 def replay(rec):
+    if rec.get("rust"):
+        return replay_rust(rec)
     from pce500.scheduler import TimerScheduler, TimerSource
 
     s = rec["state"]
